@@ -1467,7 +1467,50 @@ def count_flow_headers(text):
     return len(re.findall(r"^flow[ \t]+\S", t, re.M))
 
 
+IN_PROCESS_LIMIT = float(os.environ.get("VERIF_C13_INPROC", "60"))   # wall-clock seconds for one in-process layout case (normally < 2 s)
+SWEEP_LIMIT = float(os.environ.get("VERIF_C13_SWEEP", "1200"))
+_HANGS = 0
+
+
+class _InProcessHang(BaseException):
+    pass
+
+
 def run_impl(case):
+    """the in-process kinds (real lexer / parser called directly) run under a wall-clock watchdog: a change that makes the parser spin
+    on ordinary input must end as a verdict about THAT case, not as a time-out of the whole check.  (sre checks for signals while
+    it back-tracks, so the alarm does interrupt a regex.)  After two hangs a worker waits 5 s only, after six 1.5 s."""
+    global _HANGS
+    k = case["kind"]
+    if k not in ("tok", "v2", "v1", "file"):
+        return _run_impl(case)
+    limit = SWEEP_LIMIT if case.get("sweep") else IN_PROCESS_LIMIT
+    if _HANGS >= 6:
+        limit = min(limit, 1.5)
+    elif _HANGS >= 2:
+        limit = min(limit, 5)
+
+    def on_alarm(signum, frame):
+        raise _InProcessHang()
+
+    old_handler = signal.signal(signal.SIGALRM, on_alarm)
+    t0 = time.time()
+    old_timer = signal.setitimer(signal.ITIMER_REAL, limit, 2.0)
+    try:
+        try:
+            return _run_impl(case)
+        finally:
+            signal.setitimer(signal.ITIMER_REAL, 0)
+    except _InProcessHang:
+        _HANGS += 1
+        return {"inproc_hang": limit, "version": "?"}
+    finally:
+        signal.signal(signal.SIGALRM, old_handler)
+        if old_timer[0] > 0:  # the run budget of the main process (replay / serial mode)
+            signal.setitimer(signal.ITIMER_REAL, max(old_timer[0] - (time.time() - t0), 0.5))
+
+
+def _run_impl(case):
     k = case["kind"]
     if k == "tok":
         text = render_tok_lines(case["lines"])
@@ -1546,6 +1589,8 @@ def model_requests(case, obs):
         return cfgk.model_requests_cfg(case, obs)
     if k == "str":
         return strk.model_requests_str(case, obs)
+    if "inproc_hang" in obs:
+        return []
     if obs.get("sweep"):
         return []
     if obs.get("version") == "2.x" and k in ("tok", "v2", "file"):
@@ -1766,6 +1811,8 @@ def oracle(case, obs):
         return cfgk.oracle_cfg(case, obs)
     if k == "str":
         return strk.oracle_str(case, obs)
+    if "inproc_hang" in obs:
+        return f"parsing (lexer / parser / transformer called in-process on the program and its layout edit) did not finish within {obs['inproc_hang']:g} s: a hang"
     if obs.get("sweep"):
         b = obs.get("bad") or obs.get("known_bad")
         if b:
@@ -1885,6 +1932,8 @@ def signature(case, obs, msg):
         return cfgk.signature_cfg(case, obs, msg)
     if k == "str":
         return strk.signature_str(case, obs, msg)
+    if "inproc_hang" in obs:
+        return None
     if obs.get("sweep"):
         return "eol-comment-pre-expansion-v2" if obs.get("known_bad") and not obs.get("bad") else None
     if k in ("err", "fmt") and obs.get("outcome") == "raised":
@@ -1923,6 +1972,8 @@ def nontrivial(case, obs):
         return obs["base"]["outcome"] == "ok" and len(obs["base"].get("parsed", [])) >= 2 or obs["base"]["outcome"] == "raised"
     if k == "str":
         return strk.nontrivial_str(case, obs)
+    if "inproc_hang" in obs:
+        return False
     if obs.get("sweep"):
         return obs.get("tried", 0) > 0
     if k == "tok":
@@ -1940,6 +1991,8 @@ def tags(case, obs):
         return cfgk.tags_cfg(case, obs)
     if k == "str":
         return strk.tags_str(case, obs)
+    if "inproc_hang" in obs:
+        return ["kind:" + k, "in-process-hang"]
     t = ["kind:" + k + (":" + obs["version"] if "version" in obs and k == "file" else "")]
     if obs.get("sweep"):
         t.append("sweep-variants:%d" % (obs.get("tried", 0) // 50 * 50))
